@@ -76,7 +76,7 @@ def main(tier, replay=None):
                        'a logical with a number are left unspecified']
     if replay:
         c = json.load(open(replay))['case']
-        obs = fncases.observe(lib, [c['in']], literal=False)
+        obs = fncases.observe(lib, [c['in']], literal=False, subclasses=bool(c['in'].get('exotic')), force_wrap=bool(c['in'].get('exotic')))
         obs = [o for o in obs]
         if c['in']['formula'] != obs[0]['formula']:
             obs = fncases.observe(lib, [c['in']], literal=True)[-1:]
@@ -92,7 +92,7 @@ def main(tier, replay=None):
     run.extra['tlc_cases'] = len(cases)
     rng = random.Random(run.seed)
     cases += [rand_case(rng) for _ in range(3000 if quick else 60000)]
-    obs = fncases.observe(lib, cases, twins=True)
+    obs = fncases.observe(lib, cases, twins=True, subclasses=True)
     so = suite.observations({'AND','OR','XOR','NOT','IF','IFS','SWITCH','ISNUMBER','ISTEXT','ISLOGICAL','ISBLANK','ISERROR','ISERR','ISNA','ISNONTEXT','ISEVEN','ISODD','TRUE','FALSE'}, len(obs) + 1)   # the same functions as the repository's own tests call them
     run.extra['calls_from_repository_tests'] = len(so)
     obs += so
